@@ -197,6 +197,19 @@ def run_list_history(orc, seed):
     return fails
 
 
+def escalate(sname, orc, noise, iters, totmode, seed, T0, fails, info):
+    """the exactness clause is asymptotic: a run that is not yet at the optimum after 600 iterations is repeated with 6000 and 20000
+    iterations and only reported if it is still away from the optimum then (ill-conditioned repeated measurements plateau for a while)"""
+    if iters < 600 or not any(k == 'not-optimal-disjoint' for k, _ in fails):
+        return fails, info
+    for more in (6000, 20000):
+        _, f2, i2 = run_one(sname, orc, noise, more, totmode, seed, T0)
+        if not any(k == 'not-optimal-disjoint' for k, _ in f2):
+            info = dict(info, excess=i2.get('excess', 0.0), escalated_to=more)
+            return [f for f in fails if f[0] != 'not-optimal-disjoint'], info
+    return [(k, m + ' (still so after 6000 and 20000 iterations)') if k == 'not-optimal-disjoint' else (k, m) for k, m in fails], info
+
+
 WARM_STRUCTS = ['chain', 'loop3', 'triples', 'disjoint-pair']
 
 
@@ -265,6 +278,7 @@ def run_job(job):
             acc.case(case, nontrivial=len(struct) >= 2)
             try:
                 struct, fails, info = run_one(job['s'], job['oracle'], job['noise'], iters, totmode, seed, job.get('T', 40.0))
+                fails, info = escalate(job['s'], job['oracle'], job['noise'], iters, totmode, seed, job.get('T', 40.0), fails, info)
             except Exception as ex:  # (i) estimate must complete without error
                 import traceback
                 from ..core import _classify_exception
@@ -296,6 +310,7 @@ def replay(case):
         return [{'key': {'kind': k}, 'msg': m} for k, m in fails]
     try:
         struct, fails, info = run_one(case['s'], case['oracle'], case['noise'], case['iters'], case['total'], case['seed'], case.get('T', 40.0))
+        fails, info = escalate(case['s'], case['oracle'], case['noise'], case['iters'], case['total'], case['seed'], case.get('T', 40.0), fails, info)
     except Exception as ex:
         fails, info = [('raises', 'estimate raised %s: %s' % (type(ex).__name__, ex))], {}
     print(info)
